@@ -7,9 +7,9 @@
 
   Core Lean only.  Torch primitives modelled by their documented semantics:
     * `Tensor.expand(shape)`: right-aligned, every existing dimension must be 1 or equal;
-    * `torch.cat(tensors, dim)`: all tensors must have the same number of dimensions (this is what
-      makes `as_homogeneous_matrix` raise for a batched translation — F-08a);
-    * `torch.Size([]).numel() = 1`; `reshape(-1, …)` flattens the leading dimensions row-major.
+    * `torch.cat(tensors, dim)`: all tensors must have the same number of dimensions (since commit
+      8afe377 `as_homogeneous_matrix` expands `eye(D)` to the leading shape first — F-08a repaired);
+    * `torch.Size([]).hbcNumel() = 1`; `reshape(-1, …)` flattens the leading dimensions row-major.
   A batch of transformations is modelled as its leading shape plus a function from the *flat*
   (row-major) batch index to the transformation (`HB`).
 -/
@@ -20,10 +20,10 @@ inductive HKind where
   | translation | affine | homogeneous
   deriving DecidableEq, Repr
 
-def numel (s : List Nat) : Nat := s.foldl (· * ·) 1
+def hbcNumel (s : List Nat) : Nat := s.foldl (· * ·) 1
 
 /-- `Tensor.expand`: can a tensor of shape `src` be expanded to `dst`?  (both right-aligned) -/
-def expandOK (src dst : List Nat) : Bool :=
+def hbcExpandOK (src dst : List Nat) : Bool :=
   src.length ≤ dst.length &&
     (List.zip src.reverse dst.reverse).all (fun p => p.1 = 1 || p.1 = p.2)
 
@@ -44,19 +44,19 @@ def classifyShape (shape : List Nat) : Except String (List Nat × Nat × HKind) 
 /-- linalg.py:homogeneous_matmul @266-291 "Unify shape of leading dimensions":
     leading shapes of `a` and `b` ↦ `leading_shape`, or the ValueError / expand RuntimeError. -/
 def bcLeading (la lb : List Nat) : Except String (List Nat) :=
-  let an := numel la
-  let bn := numel lb
+  let an := hbcNumel la
+  let bn := hbcNumel lb
   if an > 1 then
     if bn > 1 ∧ la ≠ lb then .error "err:value"
     else if lb.length > la.length then .error "err:value"
-    else if expandOK lb la then .ok la else .error "err:runtime"
+    else if hbcExpandOK lb la then .ok la else .error "err:runtime"
   else if bn > 1 then
     if la.length > lb.length then .error "err:value"
-    else if expandOK la lb then .ok lb else .error "err:runtime"
+    else if hbcExpandOK la lb then .ok lb else .error "err:runtime"
   else if la.length > lb.length then
-    if expandOK lb la then .ok la else .error "err:runtime"
+    if hbcExpandOK lb la then .ok la else .error "err:runtime"
   else
-    if expandOK la lb then .ok lb else .error "err:runtime"
+    if hbcExpandOK la lb then .ok lb else .error "err:runtime"
 
 /-- flat index of the operand element that ends up at flat result index `i` after
     `expand` + `reshape(-1, …)`: an operand with more than one element has the result's leading
@@ -87,7 +87,7 @@ def H.kind : H d α → HKind
 def HB.matmul (a b : HB d α) : Except String (HB d α) := do
   let lead ← bcLeading a.lead b.lead
   pure ⟨lead, a.kind.matmul b.kind,
-        fun i => (a.elem (bcPick (numel a.lead) i)).matmul (b.elem (bcPick (numel b.lead) i))⟩
+        fun i => (a.elem (bcPick (hbcNumel a.lead) i)).matmul (b.elem (bcPick (hbcNumel b.lead) i))⟩
 
 /-- linalg.py:homogeneous_matmul(*args): left fold. -/
 def HB.matmulN : HB d α → List (HB d α) → Except String (HB d α)
@@ -96,21 +96,15 @@ def HB.matmulN : HB d α → List (HB d α) → Except String (HB d α)
       let c ← a.matmul b
       HB.matmulN c bs
 
-/-- linalg.py:as_homogeneous_matrix @99-112 on a batch **as it stands**: for a translation,
-    `torch.cat([eye(D), tensor], dim=-1)` joins a 2-D with an (n+2)-D tensor and raises unless
-    there are no leading dimensions (F-08a). -/
-def HB.asMatrix (a : HB d α) : Except String (HB d α) :=
-  if a.kind = .translation ∧ a.lead ≠ [] then .error "err:runtime"
-  else .ok ⟨a.lead, .homogeneous, fun i => let c := (a.elem i).toHom; .hom c.1 c.2⟩
-
-/-- the repaired version (`A.expand(lead + (D, D))`, FINDINGS_C08.md). -/
-def HB.asMatrixFixed (a : HB d α) : HB d α :=
+/-- linalg.py:as_homogeneous_matrix @99-113 on a batch: a translation gets `eye(D)` expanded to its
+    leading shape in front, a square matrix a zero column, a `(D, D+1)` matrix is returned as is. -/
+def HB.asMatrix (a : HB d α) : HB d α :=
   ⟨a.lead, .homogeneous, fun i => let c := (a.elem i).toHom; .hom c.1 c.2⟩
 
 /-- linalg.py:hmm @213-214. -/
 def HB.hmm (a b : HB d α) : Except String (HB d α) := do
   let c ← a.matmul b
-  c.asMatrix
+  pure c.asMatrix
 
 end
 
@@ -154,7 +148,7 @@ def transformOutShape (n d : Nat) (pshape : List Nat) : Except String (List Nat 
     was expanded from a single point / a leading 1 repeats its rows for every transform. -/
 def transformPick (n : Nat) (pshape : List Nat) (k : Nat) : Nat × Nat :=
   let d := pshape.getLast!
-  let rowsIn := numel pshape / d
+  let rowsIn := hbcNumel pshape / d
   match pshape with
   | [_] => (k, 0)                                              -- one point, expanded to N rows
   | p0 :: _ =>
